@@ -1,6 +1,8 @@
 use std::{
+    ffi::OsString,
     fs,
     io::{self, IsTerminal, Read, Write},
+    path::Path,
     process::exit,
 };
 
@@ -36,6 +38,39 @@ fn read_stdin_to_string() -> io::Result<String> {
     let mut s = String::new();
     io::stdin().read_to_string(&mut s)?;
     Ok(s)
+}
+
+/// Replace `path` with `content` without ever exposing a truncated file: the new
+/// content is written to a temporary sibling, flushed, and renamed over the target.
+fn write_file_atomically(path: &Path, content: &str) -> io::Result<()> {
+    // follow symlinks so the link itself is preserved
+    let target = fs::canonicalize(path).unwrap_or_else(|_| path.to_path_buf());
+    let dir = match target.parent() {
+        Some(parent) if !parent.as_os_str().is_empty() => parent,
+        _ => Path::new("."),
+    };
+    let file_name = target
+        .file_name()
+        .ok_or_else(|| io::Error::new(io::ErrorKind::InvalidInput, "path has no file name"))?;
+    let mut tmp_name = OsString::from(".");
+    tmp_name.push(file_name);
+    tmp_name.push(format!(".luafmt-{}.tmp", std::process::id()));
+    let tmp_path = dir.join(tmp_name);
+
+    let result = (|| {
+        let mut file = fs::File::create(&tmp_path)?;
+        file.write_all(content.as_bytes())?;
+        file.sync_all()?;
+        drop(file);
+        if let Ok(metadata) = fs::metadata(&target) {
+            fs::set_permissions(&tmp_path, metadata.permissions())?;
+        }
+        fs::rename(&tmp_path, &target)
+    })();
+    if result.is_err() {
+        let _ = fs::remove_file(&tmp_path);
+    }
+    result
 }
 
 fn format_unified_diff(
@@ -332,7 +367,7 @@ fn main() {
                         }
                     }
                 } else if args.write {
-                    if changed && let Err(e) = fs::write(path, formatted) {
+                    if changed && let Err(e) = write_file_atomically(path, &formatted) {
                         eprintln!("Failed to write {}: {e}", path.to_string_lossy());
                         exit_code = 2;
                     }
